@@ -1,6 +1,9 @@
 #!/bin/bash
-# tools/import_seeds.sh Cnn — copies /tmp/seed/Cnn-out/<i>/ into /verif/seeded/Cnn-<i>/, removes the seed worktree
+# tools/import_seeds.sh Cnn — copies /tmp/seed/Cnn-out/<i>/ into /verif/seeded/Cnn-<k>/ (k continues after the
+# ids that already exist), removes the seed worktree. Prints the new ids.
 P=$1
-for d in /tmp/seed/$P-out/*/; do i=$(basename $d); mkdir -p /verif/seeded/$P-$i; cp $d/* /verif/seeded/$P-$i/; done
+max=0; for d in /verif/seeded/$P-*/; do [ -d "$d" ] || continue; n=${d%/}; n=${n##*-}; [ "$n" -gt "$max" ] 2>/dev/null && max=$n; done
+ids=""
+for d in /tmp/seed/$P-out/*/; do [ -f "$d/patch.diff" ] || continue; max=$((max+1)); mkdir -p /verif/seeded/$P-$max; cp $d/* /verif/seeded/$P-$max/; ids="$ids $P-$max"; done
 git -C /repo worktree remove --force /tmp/seed/$P 2>/dev/null; rm -rf /tmp/seed/$P-out /tmp/seed/prompt-$P.txt
-ls -d /verif/seeded/$P-*
+echo $ids
